@@ -965,6 +965,21 @@ class Gen:
                    block([self.tick_()],
                          {"k": "call", "f": name, "args": [binop("sub", "u8", var(n), ilit("u8", 1)), step]}))
         self.fns[name] = {"ps": [n, acc], "pts": ["u8", t], "rt": t, "b": block([], body), "special": True}
+        if self.r.random() < 0.5:
+            # mutual recursion: name -> name_b -> name (a group of functions that can only be compiled together);
+            # the caller in main enters the group through either member
+            other = name + "b"
+            n2, acc2 = self.fresh("p"), self.fresh("p")
+            self.scopes = [[(acc2, t)]]
+            step2 = self.expr(t, 1)
+            body2 = if_(binop("eq", "u8", var(n2), ilit("u8", 0)), block([], var(acc2)),
+                        block([], {"k": "call", "f": name, "args": [binop("sub", "u8", var(n2), ilit("u8", 1)), step2]}))
+            self.fns[other] = {"ps": [n2, acc2], "pts": ["u8", t], "rt": t, "b": block([], body2), "special": True}
+            # redirect the recursive call of the first member to the second
+            self.fns[name]["b"]["e"][0]["e"][0]["e"][0]["f"] = other
+            self.rec_entry = self.r.choice([name, other])
+        else:
+            self.rec_entry = name
         self.scopes = []
         return t
 
@@ -1006,7 +1021,7 @@ class Gen:
                 {"v": "Reject", "bs": [b], "g": [], "b": block([host("emit", tr_, self.tag(), [var(b)]), self.tick_()])}]})
         if rec_t is not None:
             n = self.fresh()
-            ss.append(let(n, rec_t, {"k": "call", "f": "rec0", "args": [ilit("u8", r.randint(0, 4)), self.leaf(rec_t)]}))
+            ss.append(let(n, rec_t, {"k": "call", "f": self.rec_entry, "args": [ilit("u8", r.randint(0, 4)), self.leaf(rec_t)]}))
             self.declare(n, rec_t)
             ss.append(host("emit", rec_t, self.tag(), [var(n)]))
         e = self.expr(mrt, self.size, True) if mrt != "unit" else None
